@@ -1,0 +1,42 @@
+package server
+
+import (
+	"context"
+	"log/slog"
+	"net"
+	"time"
+
+	"example.com/scion-time/net/udp"
+)
+
+// readTXTimestamp returns the kernel transmit timestamp of the packet just
+// sent on conn, which the kernel numbered *txid, and advances *txid.
+//
+// The kernel numbers every packet sent, whether or not its timestamp can be
+// read afterwards. A timestamp that is not delivered within the poll timeout
+// of udp.ReadTXTimestamp stays in the socket's error queue; it is recognized
+// by its number and skipped when it turns up in front of the timestamp of a
+// later packet, so that it is not mistaken for that packet's.
+func readTXTimestamp(ctx context.Context, log *slog.Logger, conn *net.UDPConn, txid *uint32) (
+	time.Time, bool) {
+	id0 := *txid
+	*txid = id0 + 1
+	for {
+		txt, id, err := udp.ReadTXTimestamp(conn)
+		if err != nil {
+			log.LogAttrs(ctx, slog.LevelError, "failed to read packet tx timestamp",
+				slog.Any("error", err))
+			return time.Time{}, false
+		}
+		if id == id0 {
+			return txt, true
+		}
+		if int32(id-id0) < 0 {
+			continue
+		}
+		log.LogAttrs(ctx, slog.LevelError, "failed to read packet tx timestamp",
+			slog.Uint64("id", uint64(id)), slog.Uint64("expected", uint64(id0)))
+		*txid = id + 1
+		return time.Time{}, false
+	}
+}
